@@ -508,6 +508,12 @@ func cmdRun(args []string) int {
 		fnList = append(fnList, f)
 	}
 	sort.Strings(fnList)
+	if faults == nil {
+		faults = []string{}
+	}
+	if vacuous == nil {
+		vacuous = []string{}
+	}
 	if len(samples) == 0 {
 		samples = append(samples, "no completed path")
 	}
